@@ -619,13 +619,13 @@ pub fn engine_free(rt: &tokio::runtime::Runtime, cases: Vec<Value>, out: &mut Nd
                                 }
                                 4 => client
                                     .post(format!("{base}/threads/{tid}/compaction-auto"))
-                                    .json(&json!({"stride_messages": 2, "max_new_checkpoints": 2}))
+                                    .json(&json!({"stride_messages": 2, "max_new_checkpoints": 2, "actor_id": "user", "origin": "verif"}))
                                     .send()
                                     .await
                                     .map(|r| r.status().as_u16()),
                                 5 => client
                                     .post(format!("{base}/threads/{tid}/compaction-auto-schedule"))
-                                    .json(&json!({"stride_messages": 3, "max_new_checkpoints": 1}))
+                                    .json(&json!({"stride_messages": 3, "max_new_checkpoints": 1, "actor_id": "user", "origin": "verif"}))
                                     .send()
                                     .await
                                     .map(|r| r.status().as_u16()),
@@ -675,7 +675,7 @@ pub fn engine_free(rt: &tokio::runtime::Runtime, cases: Vec<Value>, out: &mut Nd
                                     .map(|r| r.status().as_u16()),
                                 _ => client
                                     .post(format!("{base}/threads/{tid}/provider-cursor-rotate"))
-                                    .json(&json!({}))
+                                    .json(&json!({"actor_id": "user", "origin": "verif"}))
                                     .send()
                                     .await
                                     .map(|r| r.status().as_u16()),
